@@ -74,6 +74,51 @@ claim("C09",
       BOUNDED + " Covariance/pearson are judged only when both coordinates have non-zero spread (the envelope's scale is zero otherwise).",
       "explicit-state BFS over add histories plus exhaustive merge-tree enumeration on the real code, exact-rational oracle")
 
+claim("C11",
+      "For every Merge type (Mean, Variance, Skewness, Kurtosis, Moments4, M6, M10, Min, Max, WeightedMean, WeightedMeanWithError, Covariance, histograms LEN 2 and 10): the set of states reachable by rounds of add and of merge over ALL pairs of already reachable states is enumerated on the real code; for every reachable a, a.merge(new()) and new().merge(a) must leave every accessor bit-for-bit equal to a's and the argument's Debug string unchanged, is_empty <=> len == 0, and for every pair (a, b) up to the cap the merged len is exactly len a + len b.",
+      BOUNDED + " Pair checks are capped (cap reported in the evidence).",
+      "exhaustive reachable-set enumeration (fixpoint rounds over add and pairwise merge) on the real code with differential bit-level oracles")
+
+claim("C12",
+      "Exhaustive input enumeration on the real from_ranges/with_const_width: LEN 1..4: every list of length 0..LEN+3 over the 9-value lattice of the statement; LEN 10/100: a valid base list with every single and every pair of defects at every position plus truncations; acceptance, error kind of the first offending position, ranges() bit-for-bit and zero counts against a reference walk; with_const_width over every ordered pair of a 30-order-of-magnitude lattice with edges compared to the exact rational start + i(end-start)/LEN within 8 ulp.",
+      BOUNDED + " 'A few ulps' is read as 8 ulps of max(|start|,|end|).",
+      "exhaustive enumeration of constructor inputs on the real code against a first-offending-position reference and an exact-rational edge oracle")
+
+claim("C13",
+      "BFS over pools of three real histograms (two on edge vector A, one on B which differs numerically, is equal, or differs only in the sign of a zero) with add, merge, +=, *= k, reset, clone; ghost bin vectors decide every transition: merge and += give the bin-wise sum and agree, different edges panic with both operands unchanged, *= and reset exact, edges untouched, iter() yields exactly LEN items in edge order, widths/centers/normalized_bins equal the literal IEEE expressions, variance(i) == variances()[i] == count(1-count/total).",
+      BOUNDED + " Commutativity/associativity follow from every reachable merge result equalling the bin-wise sum of its operands' ghosts.",
+      "explicit-state BFS over operation histories of a pool of real histograms with ghost state")
+
+claim("C14",
+      "BFS to a FIXPOINT over the 8-value alphabet {-inf,-1,-0.0,0.0,5e-324,1,+inf,NaN}: initial states new(), default(), from_value(v), collect of every word of length <= 2 (by value and by reference); operations add, merge(from_value(v)), merge(new()), merge(collect(w)), collect(w).merge(self), extend; ghost extreme of the non-NaN observations. The state space is finite and closes, so the verdict covers histories of any length over this alphabet.",
+      "Values outside the 8-value alphabet are not covered; " + BOUNDED,
+      "explicit-state BFS to fixpoint (closed finite state space) on the real Min/Max with a ghost extreme")
+
+claim("C16",
+      "A sentinel table in code, evaluated on the real estimators: every public estimator type x every statistic accessor (each call guarded by catch_unwind) x the empty estimator, one observation and constant add-only streams of eight values at every length up to 1000 (10^4 thorough), including all-zero-weight streams for the weighted types; the only accepted panic is the documented zero-variance assertion of standardized_moment(p >= 3).",
+      BOUNDED + " The below-minimum-size sentinels on non-constant data are decided by C09/C10/C15.",
+      "explicit-state BFS over constant add histories of every estimator type against the documented sentinel table")
+
+claim("C17",
+      "No restriction on kappa: alphabets with offsets 1e15 times the spread, spreads of one ulp, subnormals, |x| = 1e150 and mixed magnitudes; every add-sequence up to the depth bound AND every merge tree over every chunking (interval exploration) for Mean, Variance, Skewness, Kurtosis, Moments4, M6, Covariance, WeightedMean(WithError); on every reachable state every variance-type accessor is >= 0 and not NaN whenever defined, every mean lies inside the data range up to 8·n·u·max|x|, effective_len in [1, len]; histogram bin variances for every count vector of total <= 6.",
+      BOUNDED,
+      "explicit-state BFS plus exhaustive merge-tree enumeration on the real code with sign/range invariants on every state")
+
+claim("C18",
+      "For every serialisable estimator type (incl. Quantile at four p, histograms LEN 2/10/100): BFS over add, merge(collect(w)) and checkpoint = serde_json(float_roundtrip) round trip replacing the object; at EVERY reachable state the checkpoint transition is checked differentially with no expected values: serialising leaves the estimator unchanged, the restored copy's Debug string and every accessor are bit-identical, and every continuation of up to two further operations stays bit-identical on both copies.",
+      BOUNDED + " States with a non-finite field (fresh Min/Max) are outside the statement and skipped (counted).",
+      "explicit-state BFS with a checkpoint/restore transition at every state and a differential (restored vs uninterrupted) oracle over all 2-step continuations")
+
+claim("C19",
+      "Decided at the rayon plumbing seam: a scripted ParallelIterator drives the crate's real FromParallelIterator impls (fold(new, add).reduce(new, merge)) through EVERY binary split tree over every composition of every short word (188 trees for 6 items, empty leaves, both execution orders for small trees), for f64 and &f64, sequentially and deterministically; len exact, Min/Max exactly sequential, every statistic inside the envelope of the exact statistics. Bound to real rayon by trace validation: real pools of 1..16 threads x with_min_len/with_max_len over a logging producer; every recorded split tree is replayed through the scripted driver and must give the bit-identical estimator.",
+      BOUNDED + " rayon's scheduler (deques, latches) is trusted: it is not written against loom/shuttle types and cannot be intercepted; it is assumed to honour the documented Consumer/Folder/Reducer protocol.",
+      "exhaustive enumeration of all consumer split trees at the rayon plumbing seam on the real code, plus conformance replay of split trees recorded from real rayon pools")
+
+claim("C20",
+      "For every type with FromIterator/Extend: every sequence up to the length bound over 3-value alphabets built through every initial piece (new, default, collect by value, collect by reference) followed by every composition into pieces fed by add loop / extend(values) / extend(references) (empty extends included); Debug string and every accessor bit-identical to the plain add loop, estimate() bit-equal to the headline accessor; four engine-defined concatenate! structs (2-4 fields, short and long syntax, with Quantile) compared accessor by accessor with the solo estimators for new(), default() and both collect forms.",
+      BOUNDED,
+      "explicit-state BFS over ingestion histories of the real estimators with a differential oracle (plain add loop)")
+
 ALL = [f"C{i:02d}" for i in range(1, 21)]
 
 def main():
